@@ -767,13 +767,13 @@ def geocentricposlos2cart(r, lat, lon, za, aa):
 
     r, lat, lon, za, aa = _broadcast(r, lat, lon, za, aa)
 
-    if any(r == 0):
+    if np.any(r == 0):
         raise Exception("This function is not handling the case of r = 0.")
-    if any(lat < -90) or any(lat > 90):
+    if np.any(lat < -90) or np.any(lat > 90):
             raise RuntimeError("The latitude is out of range")
-    if any(lon < -180) or any(lon > 180):
+    if np.any(lon < -180) or np.any(lon > 180):
             raise RuntimeError("The longitude is out of range")
-    if any(za < 0) or any(za > 180):
+    if np.any(za < 0) or np.any(za > 180):
             raise RuntimeError("The zenith angle is out of range")
 
     deg2rad = np.deg2rad(1)
@@ -787,7 +787,7 @@ def geocentricposlos2cart(r, lat, lon, za, aa):
 
     at_pole = abs(lat) > (90 - 1e-8)
 
-    if any(at_pole):
+    if np.any(at_pole):
         s = np.sign(lat[at_pole])
         x[at_pole] = 0.
         y[at_pole] = 0.
@@ -799,7 +799,7 @@ def geocentricposlos2cart(r, lat, lon, za, aa):
 
     not_pole = np.logical_not(at_pole)
 
-    if any(not_pole):
+    if np.any(not_pole):
         latrad = deg2rad * lat[not_pole]
         lonrad = deg2rad * lon[not_pole]
         zarad = deg2rad * za[not_pole]
